@@ -224,3 +224,22 @@ Proof.
   split; [|repeat split].
   intros id v H. cbn in H. destruct H as [H|[H|[H|[]]]]; injection H as <- <-; reflexivity.
 Qed.
+
+(* get_points_and_weights along a history: the component rules are a function of (scheme, refinement), one list per stop; at EVERY
+   stop of every history the published combined rule applied to the integrand equals the value the driver reports there *)
+Theorem C05_rule_reproduces_reported_every_stop : forall (P : Type) (f : P -> Qc) (stops : list (list (Qc * rule P))) (s : astate Qc),
+  Forall (fun p => fst p = snd p) (dw_history f stops s).
+Proof. exact @rule_reproduces_reported_every_stop. Qed.
+Print Assumptions C05_rule_reproduces_reported_every_stop.
+(* REFUTED for a rule that is remembered per scheme (coefficients) and not per refinement: two stops with the same coefficients, the
+   second refined further - the remembered rule gives 1/2 where 3/8 is reported *)
+Theorem C05_rule_memoised_per_scheme_refuted :
+  let q n := Q2Qc (n # 8) in
+  let f (x : Qc) := (x * x)%Qc in
+  let stop1 := [(Q2Qc 1, [(q 0, q 4); (q 8, q 4)])] in
+  let stop2 := [(Q2Qc 1, [(q 0, q 2); (q 4, q 4); (q 8, q 2)])] in
+  exists p, In p (dw_history_memo f None [stop1; stop2] (mkA [] [] 0%Qc 0%Qc)) /\ fst p <> snd p.
+Proof.
+  cbv zeta. eexists. split; [right; left; reflexivity|]. cbn [fst snd]. intro H. apply (f_equal (fun x => Qcanon.this x)) in H. vm_compute in H. discriminate.
+Qed.
+Print Assumptions C05_rule_memoised_per_scheme_refuted.
